@@ -148,3 +148,37 @@ def x25519(k, u):
     if swap:
         x2, x3, z2, z3 = x3, x2, z3, z2
     return (x2 * inv(z2) % p).to_bytes(32, "little")
+
+
+def mont_ladder(k, x1):
+    """x-only scalar multiplication on Curve25519 / its twist with an UNCLAMPED integer scalar; returns (x2, z2) projective (z2 = 0: infinity)"""
+    x1 %= p
+    x2, z2, x3, z3, swap = 1, 0, x1, 1, 0
+    for t in reversed(range(max(k.bit_length(), 1))):
+        kt = (k >> t) & 1
+        swap ^= kt
+        if swap:
+            x2, x3, z2, z3 = x3, x2, z3, z2
+        swap = kt
+        A = (x2 + z2) % p; AA = A * A % p; Bq = (x2 - z2) % p; BB = Bq * Bq % p; E = (AA - BB) % p
+        C = (x3 + z3) % p; D = (x3 - z3) % p; DA = D * A % p; CB = C * Bq % p
+        x3 = (DA + CB) ** 2 % p; z3 = x1 * (DA - CB) ** 2 % p; x2 = AA * BB % p; z2 = E * (AA + 121665 * E) % p
+    if swap:
+        x2, x3, z2, z3 = x3, x2, z3, z2
+    return x2, z2
+
+
+L_TWIST = (1 << 253) - 55484635554744707071703875581767296995      # prime order of the quadratic twist's large subgroup
+
+
+def preimage_for_output(n_bytes, u):
+    """a point P (32 bytes) with X25519(n, P) = u, for u of prime order on the curve or on its twist; None if u has a torsion component"""
+    k = int.from_bytes(n_bytes, "little"); k &= (1 << 254) - 8; k |= 1 << 254
+    for order in (L, L_TWIST):
+        if mont_ladder(order, u)[1] == 0:                 # [order]u = infinity: u lies in that prime-order subgroup
+            m = pow(k, -1, order)
+            x2, z2 = mont_ladder(m, u)
+            if z2 == 0:
+                return None
+            return (x2 * inv(z2) % p).to_bytes(32, "little")
+    return None
